@@ -11,6 +11,7 @@ NW = {
     'nw_mul_unguarded': {'VIOLATION'}, 'nw_mul_guarded': {'PASS'}, 'nw_mul_guarded_le': {'PASS'},
     'nw_inc_unguarded': {'VIOLATION'}, 'nw_inc_guarded': {'PASS'}, 'nw_inc_guarded_lt': {'PASS'},
     'nw_hdr_wrong_guard': {'PASS', 'VIOLATION'}, 'nw_hdr_right_guard': {'PASS'},
+    'nw_builtin_checked': {'PASS'}, 'nw_builtin_flag_ignored': {'VIOLATION'},
     'nw_sum_guarded': {'PASS'}, 'nw_sum_unguarded': {'VIOLATION'}, 'nw_const_mul_guarded': {'PASS'},
 }
 HO = {'ho_bad': True, 'ho_good': False}
